@@ -125,6 +125,30 @@ func corruptions() []corruption {
 			}
 			return "", false
 		}},
+		// the backend answering eth_getLogs has not imported the last requested block yet
+		// (another replica served the headers): its probe is null and its logs stop short
+		corruption{name: "log-backend-lags", method: "eth_getLogs", apply: func(out []any) []any {
+			out = setResult(out, 0, func(any) any { return nil })
+			return setResult(out, len(out)-1, func(r any) any {
+				ls := r.([]any)
+				var last string
+				for _, l := range ls {
+					if bn := l.(map[string]any)["blockNumber"].(string); bn > last || len(bn) > len(last) {
+						last = bn
+					}
+				}
+				var keep []any
+				for _, l := range ls {
+					if l.(map[string]any)["blockNumber"].(string) != last {
+						keep = append(keep, l)
+					}
+				}
+				if keep == nil {
+					keep = []any{}
+				}
+				return keep
+			})
+		}},
 		corruption{name: "log-out-of-range", method: "eth_getLogs", apply: func(out []any) []any {
 			return setResult(out, len(out)-1, func(r any) any {
 				ls := append([]any{}, r.([]any)...)
